@@ -1,4 +1,5 @@
 (* C01 — Round-trip fidelity of every finalized archive (statements grow with the model). *)
+From MLA Require Import Limit.
 From MLA Require Import Base Stream EncLayer EncLayerProofs Blocks Writer WriterProofs Reader SrcTie Inst.
 From MLAGen Require Src.
 Open Scope N_scope.
@@ -85,7 +86,7 @@ Proof. exact parse_ser_footer_map. Qed.
 (* what a run of successful calls + finalize wrote: the serialised ghost block list (whose
    per-file projection and run offsets the invariant WInv ties to files_info/ids_info), the
    end-of-archive tag, the footer *)
-Theorem C01_writer_final :
+Theorem C01_writer_final {LIM : Limit} :
   forall FNMAX TS TC TA TE (H : bytes -> bytes) (order : footer -> footer),
   (forall x, len (H x) = 32) ->
   forall ops sf rs,
@@ -98,7 +99,7 @@ Theorem C01_writer_final :
 Proof. exact writer_final. Qed.
 
 (* 1. the reader opens (footer found and parsed, source rewound) *)
-Theorem C01_open :
+Theorem C01_open {LIM : Limit} :
   forall FNMAX TS TC TA TE (H : bytes -> bytes) (order : footer -> footer),
   (forall x, len (H x) = 32) -> (forall f, Permutation (order f) f) ->
   forall ops sf rs,
@@ -112,7 +113,7 @@ Proof. exact rt_open. Qed.
 (* 2. list_files = exactly the started names, each once.  RS r ("r is a reader over this
    archive") holds after open and is kept by get_file / get_hash, so 2-5 hold after any
    sequence of such calls *)
-Theorem C01_list_files :
+Theorem C01_list_files {LIM : Limit} :
   forall FNMAX TS TC TA TE (H : bytes -> bytes) (order : footer -> footer),
   (forall x, len (H x) = 32) -> (forall f, Permutation (order f) f) ->
   forall ops sf rs,
@@ -127,7 +128,7 @@ Proof. exact rt_list. Qed.
    buffer sizes delivers exactly the bytes given, and stops in Finish.  (zf: the bound on
    consecutive empty content blocks `read` steps over, Reader.next_block — any value, even 0:
    the writer emits no empty block) *)
-Theorem C01_get_file :
+Theorem C01_get_file {LIM : Limit} :
   forall FNMAX TS TC TA TE (H : bytes -> bytes) (order : footer -> footer),
   tags_distinct TS TC TA TE -> (forall x, len (H x) = 32) -> (forall f, Permutation (order f) f) ->
   forall ops sf rs,
@@ -147,7 +148,7 @@ Proof. exact rt_get_file. Qed.
 
 (* 3'. call by call: every read with a positive buffer is Ok (never Err, never Crash), delivers
    at most n of the next bytes, and delivers nothing only when all has been delivered *)
-Theorem C01_reads_ok :
+Theorem C01_reads_ok {LIM : Limit} :
   forall FNMAX TS TC TA TE (H : bytes -> bytes) (order : footer -> footer),
   tags_distinct TS TC TA TE -> (forall x, len (H x) = 32) -> (forall f, Permutation (order f) f) ->
   forall ops sf rs,
@@ -165,7 +166,7 @@ Theorem C01_reads_ok :
 Proof. exact rt_reads_ok. Qed.
 
 (* 4. the stored hash is H of the bytes given *)
-Theorem C01_get_hash :
+Theorem C01_get_hash {LIM : Limit} :
   forall FNMAX TS TC TA TE (H : bytes -> bytes) (order : footer -> footer),
   tags_distinct TS TC TA TE -> (forall x, len (H x) = 32) -> (forall f, Permutation (order f) f) ->
   forall ops sf rs,
@@ -179,7 +180,7 @@ Theorem C01_get_hash :
 Proof. exact rt_get_hash. Qed.
 
 (* 5. names never started are absent *)
-Theorem C01_absent :
+Theorem C01_absent {LIM : Limit} :
   forall FNMAX TS TC TA TE (H : bytes -> bytes) (order : footer -> footer),
   (forall x, len (H x) = 32) -> (forall f, Permutation (order f) f) ->
   forall ops sf rs,
@@ -203,7 +204,7 @@ Proof. exact len_sha256. Qed.
    than announced, footer in reverse order, FILENAME_MAX_SIZE = 48, source tags, SHA-256)
    meets every hypothesis; it is read through a throttled stream (short reads) *)
 Example C01_nonvacuous_hyps :
-  wrun 48 Src.BT_FileStart Src.BT_FileContent Src.BT_EndOfArchiveData Src.BT_EndOfFile sha256 ex_order
+  wrun (LIM := Src.BINCODE_MAX_DESERIALIZE_prod) 48 Src.BT_FileStart Src.BT_FileContent Src.BT_EndOfArchiveData Src.BT_EndOfFile sha256 ex_order
        w_init (ex_ops ++ [OFinalize]) = (ex_sf, ex_rs) /\
   Forall (fun r => is_ok r = true) ex_rs /\ forallb op_utf8 ex_ops = true /\
   len (w_out ex_sf) < 2 ^ 64 /\ len (ser_footer_map (ex_order (w_footer ex_sf))) < 2 ^ 32 /\
@@ -274,7 +275,7 @@ Theorem C01_archive_roundtrip :
   forall cfg cut_top cut_mid ops sf rs privs s,
   let blocks := w_out sf in
   let nb := nblocks BLOCK (len blocks) in
-  wrun FNMAX TS TC TA TE H order w_init (ops ++ [OFinalize]) = (sf, rs) ->
+  wrun (LIM := LIMIT) FNMAX TS TC TA TE H order w_init (ops ++ [OFinalize]) = (sf, rs) ->
   Forall (fun r => is_ok r = true) rs -> forallb op_utf8 ops = true ->
   len blocks < 2 ^ 64 -> len (ser_footer_map (order (w_footer sf))) < 2 ^ 32 ->
   (wc_compress cfg = true ->
@@ -313,7 +314,7 @@ Theorem C01_archive_roundtrip_gcm :
   forall cfg cut_top cut_mid ops sf rs privs s,
   let blocks := w_out sf in
   let nb := nblocks BLOCK (len blocks) in
-  wrun FNMAX TS TC TA TE H order w_init (ops ++ [OFinalize]) = (sf, rs) ->
+  wrun (LIM := LIMIT) FNMAX TS TC TA TE H order w_init (ops ++ [OFinalize]) = (sf, rs) ->
   Forall (fun r => is_ok r = true) rs -> forallb op_utf8 ops = true ->
   len blocks < 2 ^ 64 -> len (ser_footer_map (order (w_footer sf))) < 2 ^ 32 ->
   (wc_compress cfg = true ->
@@ -547,7 +548,7 @@ Import SrcTie2 CarryWriter CarryReader.
    ser_blocks bl ++ [EndOfArchiveData] ++ footer for a block list bl in the writer invariant (well-formed,
    no EndOfArchiveData inside), whose names are the started names and whose content blocks per id
    concatenate to the bytes given *)
-Theorem C01_writer_final_src :
+Theorem C01_writer_final_src {LIM : Limit} :
   forall FNMAX TS TC TA TE H order, (forall x : bytes, len (H x) = 32) ->
   forall ops (sf : Src2.ArchiveWriter) rs,
     src_wrun FNMAX TS TC TA TE H order aw0 (ops ++ [OFinalize]) = (sf, rs) ->
@@ -568,12 +569,13 @@ Proof. exact writer_final_src. Qed.
    translated get_file reports their count and the translated read, with ANY positive buffer sizes,
    returns exactly those bytes in order and ends in Finish.  F is the fuel of the translated read loop
    (the D14 loop): anything above (zf+1)(|offsets of the file|+2). *)
+(* the translated reader has the source's constant baked in: LIM = Src3d.BINCODE_MAX_DESERIALIZE, writer side included *)
 Theorem C01_roundtrip_src :
   forall FNMAX TS TC TA TE H order site_index,
     tags_distinct TS TC TA TE -> (forall x : bytes, len (H x) = 32) ->
     (forall f : footer, Permutation (order f) f) ->
   forall ops (sf : Src2.ArchiveWriter) rs,
-    src_wrun FNMAX TS TC TA TE H order aw0 (ops ++ [OFinalize]) = (sf, rs) ->
+    src_wrun (LIM := Src3d.BINCODE_MAX_DESERIALIZE) FNMAX TS TC TA TE H order aw0 (ops ++ [OFinalize]) = (sf, rs) ->
     Forall (fun r => is_ok r = true) rs -> forallb op_utf8 ops = true ->
     len (Src2.dest sf) < 2 ^ 64 -> len (ser_footer_map (order (w_footer (absW sf)))) < 2 ^ 32 ->
   forall (S : Stream) (R : st S -> N -> Prop), Refines S (Src2.dest sf) R ->
@@ -603,7 +605,7 @@ Theorem C01_list_files_src :
   forall FNMAX TS TC TA TE H order, (forall x : bytes, len (H x) = 32) ->
     (forall f : footer, Permutation (order f) f) ->
   forall ops (sf : Src2.ArchiveWriter) rs,
-    src_wrun FNMAX TS TC TA TE H order aw0 (ops ++ [OFinalize]) = (sf, rs) ->
+    src_wrun (LIM := Src3d.BINCODE_MAX_DESERIALIZE) FNMAX TS TC TA TE H order aw0 (ops ++ [OFinalize]) = (sf, rs) ->
     Forall (fun r => is_ok r = true) rs -> forallb op_utf8 ops = true ->
     len (Src2.dest sf) < 2 ^ 64 -> len (ser_footer_map (order (w_footer (absW sf)))) < 2 ^ 32 ->
   forall (S : Stream) (R : st S -> N -> Prop) (ar : Src3d.ArchiveReader S), SrcRS order sf S R ar ->
@@ -614,7 +616,7 @@ Theorem C01_get_hash_src :
   forall FNMAX TS TC TA TE H order, tags_distinct TS TC TA TE -> (forall x : bytes, len (H x) = 32) ->
     (forall f : footer, Permutation (order f) f) ->
   forall ops (sf : Src2.ArchiveWriter) rs,
-    src_wrun FNMAX TS TC TA TE H order aw0 (ops ++ [OFinalize]) = (sf, rs) ->
+    src_wrun (LIM := Src3d.BINCODE_MAX_DESERIALIZE) FNMAX TS TC TA TE H order aw0 (ops ++ [OFinalize]) = (sf, rs) ->
     Forall (fun r => is_ok r = true) rs -> forallb op_utf8 ops = true ->
     len (Src2.dest sf) < 2 ^ 64 -> len (ser_footer_map (order (w_footer (absW sf)))) < 2 ^ 32 ->
   forall (S : Stream) (R : st S -> N -> Prop), Refines S (Src2.dest sf) R ->
@@ -640,9 +642,9 @@ Proof. unfold carry_H, len. rewrite map_length, seq_length. reflexivity. Qed.
 Definition carry_ops : list wop :=
   [OStart [97]; OAppend 0 3 [1; 2; 3]; OAdd [98] 2 [9; 8]; OFlush; OAppend 0 2 [4; 5]; OEnd 0].
 Definition carry_sf : Src2.ArchiveWriter :=
-  fst (src_wrun 48 0 1 254 255 carry_H (fun f => f) aw0 (carry_ops ++ [OFinalize])).
+  fst (src_wrun (LIM := Src3d.BINCODE_MAX_DESERIALIZE) 48 0 1 254 255 carry_H (fun f => f) aw0 (carry_ops ++ [OFinalize])).
 Example C01_example_src_computed :
-  snd (src_wrun 48 0 1 254 255 carry_H (fun f => f) aw0 (carry_ops ++ [OFinalize])) = repeat (Ok 0) 7 /\
+  snd (src_wrun (LIM := Src3d.BINCODE_MAX_DESERIALIZE) 48 0 1 254 255 carry_H (fun f => f) aw0 (carry_ops ++ [OFinalize])) = repeat (Ok 0) 7 /\
   match src_open (Cursor (Src2.dest carry_sf)) 0 with
   | Ok ar =>
     snd (Src3d.list_files _ ar) = Ok [[97]; [98]] /\
@@ -660,7 +662,7 @@ Example C01_example_src_premises :
   exists ar, src_open (Cursor (Src2.dest carry_sf)) 0 = Ok ar /\
     exists ar', Src3d.get_hash _ 48 0 1 254 255 ar [98] = (ar', Ok (Some (carry_H [9; 8]))).
 Proof.
-  assert (Hrun : src_wrun 48 0 1 254 255 carry_H (fun f => f) aw0 (carry_ops ++ [OFinalize]) = (carry_sf, repeat (Ok 0) 7))
+  assert (Hrun : src_wrun (LIM := Src3d.BINCODE_MAX_DESERIALIZE) 48 0 1 254 255 carry_H (fun f => f) aw0 (carry_ops ++ [OFinalize]) = (carry_sf, repeat (Ok 0) 7))
     by (vm_compute; reflexivity).
   destruct (C01_roundtrip_src 48 0 1 254 255 carry_H (fun f => f) 0
               ltac:(vm_compute; repeat split; discriminate) carry_H_len (fun f => Permutation_refl f)
@@ -681,3 +683,29 @@ Print Assumptions C01_get_file_read_src.
 Print Assumptions C01_absent_src.
 Print Assumptions C01_src_open_is_ropen.
 Print Assumptions C01_example_src_premises.
+
+(* ---------- work package fixlimits: BINCODE_MAX_DESERIALIZE is a parameter of the model ---------- *)
+From MLA Require SrcTie3Footer LimitExample RoundTripRun.
+(* a successful finalize means the footer passed both checks of serialize_into (so the premise
+   "footer < 2^32" of the theorems above is implied by their "all calls succeeded") *)
+Theorem C01_writer_final_limits : ltac:(let t := type of @RoundTripRun.writer_final_limits in exact t).
+Proof. exact @RoundTripRun.writer_final_limits. Qed.
+Print Assumptions C01_writer_final_limits.
+(* the WrongWriterState arm of serialize_into is unreachable; the translated serialize_into IS the
+   model's finalize after the end marker, all three outcomes *)
+Theorem C01_tie_footer_join_writer : ltac:(let t := type of SrcTie3Footer.footer_join_writer in exact t).
+Proof. exact SrcTie3Footer.footer_join_writer. Qed.
+Print Assumptions C01_tie_footer_join_writer.
+Theorem C01_tie_footer_serialize_into_model : ltac:(let t := type of SrcTie3Footer.footer_serialize_into_model in exact t).
+Proof. exact SrcTie3Footer.footer_serialize_into_model. Qed.
+Print Assumptions C01_tie_footer_serialize_into_model.
+(* the limit arms evaluated under a tiny limit on a 3-file archive *)
+Example C01_limit_writer_arm : ltac:(let t := type of LimitExample.writer_limit_arm in exact t).
+Proof. exact LimitExample.writer_limit_arm. Qed.
+Example C01_limit_reader_arm : ltac:(let t := type of LimitExample.reader_limit_arm in exact t).
+Proof. exact LimitExample.reader_limit_arm. Qed.
+Example C01_limit_comp_writer_arm : ltac:(let t := type of LimitExample.comp_writer_limit_arm in exact t).
+Proof. exact LimitExample.comp_writer_limit_arm. Qed.
+Print Assumptions C01_limit_writer_arm.
+Print Assumptions C01_limit_reader_arm.
+Print Assumptions C01_limit_comp_writer_arm.
